@@ -263,7 +263,10 @@ class MoveGlobal:
         )
         self.import_tools = self.tools.import_tools
 
-    def _import_filter(self, stmt):
+    def _import_filter_in(self, folder):
+        return lambda stmt: self._import_filter(stmt, folder)
+
+    def _import_filter(self, stmt, folder=None):
         module_name = libutils.modname(self.source)
 
         if isinstance(stmt.import_info, importutils.NormalImport):
@@ -273,6 +276,13 @@ class MoveGlobal:
                 for name, alias in stmt.import_info.names_and_aliases
             )
         elif isinstance(stmt.import_info, importutils.FromImport):
+            if stmt.import_info.level > 0:
+                # A relative import names the source module only relative
+                # to the package of the importing module
+                if folder is None:
+                    return False
+                context = importutils.importinfo.ImportContext(self.project, folder)
+                return stmt.import_info.get_imported_resource(context) == self.source
             # Affect statements importing from the source package
             if "." in module_name:
                 package_name, basename = module_name.rsplit(".", 1)
@@ -367,7 +377,9 @@ class MoveGlobal:
                 # Removing out of date imports
                 pymodule = self.tools.new_pymodule(pymodule, source)
                 source = self.import_tools.organize_imports(
-                    pymodule, sort=False, import_filter=self._import_filter
+                    pymodule,
+                    sort=False,
+                    import_filter=self._import_filter_in(file_.parent),
                 )
                 # Adding new import
                 if should_import:
@@ -441,7 +453,7 @@ class MoveGlobal:
             sort=False,
             selfs=False,
             unused=True,
-            import_filter=self._import_filter,
+            import_filter=self._import_filter_in(dest.parent),
         )
         return ChangeContents(dest, source)
 
